@@ -18,7 +18,10 @@ var errBoom = errors.New("injected fault")
 // recW records the fault-free write sequence.
 type recW struct{ writes []string }
 
-func (w *recW) Write(p []byte) (int, error) { w.writes = append(w.writes, string(p)); return len(p), nil }
+func (w *recW) Write(p []byte) (int, error) {
+	w.writes = append(w.writes, string(p))
+	return len(p), nil
+}
 
 type recSW struct{ recW }
 
